@@ -67,6 +67,9 @@ fn main() {
         }
         return;
     }
+    if cmd == "c18-child" {
+        props::c18::child_main(&args[2..]);
+    }
     if args.len() < 3 {
         usage();
     }
@@ -149,6 +152,9 @@ fn main() {
                 if let Verdict::Fail(f) = part.replay(&ctx, &rf.case) {
                     fails += 1;
                     last = format!("[{}] {}", f.sig, f.msg);
+                    if cmd == "replay-inner" {
+                        println!("SIG={}", f.sig);
+                    }
                 }
             }
             if cmd == "replay" {
